@@ -206,6 +206,7 @@ Proof.
       apply in_map_iff in H5. destruct H5 as (c & Hc1 & Hc2). apply in_map_iff. exists c. split; [exact Hc1|].
       apply filter_In. split; [exact Hc2 | rewrite Hc1; exact Hne].
   - destruct (coll_id s coll); exact Hs.
+  - exact Hs.
   - pose proof (expire_colls_tables x (map fst (s_colls s)) s [] (fun c H => H) Hs) as H.
     destruct (expire_colls s x (map fst (s_colls s)) []) as [s' evs]. exact H.
 Qed.
